@@ -55,7 +55,43 @@ func baseEnv() []string {
 
 // Load type-checks every non-test package of the module rooted at repo from the
 // working tree, and builds SSA for them.
+// Load loads the repository and folds new helpers (inlinepass.go) before the rules see it.
 func Load(repo string, o LoadOpts) (*World, error) {
+	w, err := loadOnce(repo, o)
+	if err != nil {
+		return nil, err
+	}
+	st := &foldState{failed: map[string]bool{}}
+	for round := 0; round < 40; round++ {
+		add := w.foldRound(o.Overlay, st)
+		if add == nil {
+			break
+		}
+		ov := map[string][]byte{}
+		for k, v := range o.Overlay {
+			ov[k] = v
+		}
+		for k, v := range add {
+			ov[k] = v
+		}
+		o.Overlay = ov
+		w2, err := loadOnce(repo, o)
+		if err != nil {
+			// the folded text does not load: keep the last good world (the rules then see the helper as it is)
+			foldNotes = append(foldNotes, "helper folding: a folded file did not type-check, folding stopped: "+err.Error())
+			break
+		}
+		w = w2
+	}
+	if dir := os.Getenv("VERIF_DUMP_FOLD"); dir != "" {
+		for name, b := range o.Overlay {
+			os.WriteFile(filepath.Join(dir, strings.ReplaceAll(strings.TrimPrefix(name, repo+"/"), "/", "__")), b, 0o644)
+		}
+	}
+	return w, nil
+}
+
+func loadOnce(repo string, o LoadOpts) (*World, error) {
 	fset := token.NewFileSet()
 	cfg := &packages.Config{
 		Mode: packages.NeedName | packages.NeedFiles | packages.NeedCompiledGoFiles |
